@@ -15,7 +15,8 @@ PROPS = {
     # profile, checked classes, generator classes, iterator class for generated scripts
     "C01": dict(profile="C01", checked=["latest"], gen=["pt", "rk", "mt", "ig"], itercls="pos",
                 quick_cfgs=["default", "flushy", "manual", "bigvals", "oldfmv", "nolazy"]),
-    "C02": dict(profile="C02", checked=["pos"], gen=["pt", "rk", "it", "it", "mt"], itercls="pos", masks=True,
+    # 2 prefixes x (bare + 5 suffixes): long version chains per prefix, so that a prefix straddles table boundaries
+    "C02": dict(profile="C02", checked=["pos"], gen=["pt", "rk", "it", "it", "mt"], itercls="pos", masks=True, univ=(2, 5),
                 quick_cfgs=["default", "flushy", "manual", "nolazy", "valsep", "bigvals"]),
     "C03": dict(profile="C03", checked=["snap"], gen=["pt", "rk", "mt", "sn", "ig"], itercls="snap",
                 quick_cfgs=["default", "flushy", "flushy2", "manual", "valsep", "oldfmv"]),
@@ -46,16 +47,19 @@ PROPS = {
 }
 
 
+UNIV = [P, S]   # the key universe of the run in progress (a property may choose another shape with the same 12 keys)
+
+
 def trace_cfg(checked):
     return ("SPECIFICATION TraceSpec\nCONSTANTS\n  P = %d\n  S = %d\n  Checked = {%s}\n"
             "CONSTRAINT HWM\nPOSTCONDITION TraceAccepted\nCHECK_DEADLOCK FALSE\n"
-            % (P, S, ", ".join('"%s"' % c for c in checked))).encode()
+            % (UNIV[0], UNIV[1], ", ".join('"%s"' % c for c in checked))).encode()
 
 
 def gen_cfg(classes, itercls, masks, maxlen, maxsnaps=2, maxiters=2):
     return ("SPECIFICATION Spec\nCONSTANTS\n  P = %d\n  S = %d\n  MaxLen = %d\n  MaxSnaps = %d\n  MaxIters = %d\n"
             "  Classes = {%s}\n  IterCls = \"%s\"\n  Masks = %s\nINVARIANT Inv\nINVARIANT EmitInv\nCHECK_DEADLOCK FALSE\n"
-            % (P, S, maxlen, maxsnaps, maxiters, ", ".join('"%s"' % c for c in sorted(set(classes))), itercls,
+            % (UNIV[0], UNIV[1], maxlen, maxsnaps, maxiters, ", ".join('"%s"' % c for c in sorted(set(classes))), itercls,
                "TRUE" if masks else "FALSE")).encode()
 
 
@@ -286,11 +290,12 @@ def run_kv(run, prop=None):
     pp = PROPS[prop]
     tier = run.tier
     quick = tier == "quick"
+    UNIV[0], UNIV[1] = pp.get("univ", (P, S))
     design_check(run, tier)
     binp = vlib.build_driver("internal/verif/dbdrv")
     tdir = vlib.scratch("verif.kvtr.")
     cfgs = pp["quick_cfgs"] if quick else pp.get("all_cfgs", ALLCFG)
-    env = dict(VERIF_OUT=tdir, VERIF_PROFILE=pp["profile"], VERIF_SEED=str(run.seed), VERIF_P=str(P), VERIF_S=str(S),
+    env = dict(VERIF_OUT=tdir, VERIF_PROFILE=pp["profile"], VERIF_SEED=str(run.seed), VERIF_P=str(UNIV[0]), VERIF_S=str(UNIV[1]),
                VERIF_CONFIGS=",".join(cfgs), VERIF_SCRIPTS=str(25 if quick else 300), VERIF_STEPS=str(40 if quick else 60))
     rc, out = vlib.run_driver(binp, "TestDrive", env=env, timeout=3000)
     if "DRIVER-DONE" not in out:
@@ -337,7 +342,7 @@ def run_kv(run, prop=None):
         ls = [json.loads(l) for l in list(open(f))[:6]]
         run.sample({"trace": os.path.basename(f), "first_events": ls})
     run.assumptions += [
-        "the model's key universe is 3 prefixes x (bare + 3 suffixes) with the testkeys comparer; values are ids with id-dependent padding",
+        "the model's key universe is %d prefixes x (bare + %d suffixes) with the testkeys comparer; values are ids with id-dependent padding" % (UNIV[0], UNIV[1]),
         "SingleDelete/DeleteSized are generated only inside their documented contracts",
         "TLC's verdict on each trace is authoritative; the Go driver only executes and records",
     ]
